@@ -91,9 +91,7 @@ Section Sim.
       reflexivity.
   Qed.
 
-  Lemma pubkey_rel o o' : orel RI o o' ->
-    match o with Some (FPubKey id _ pem) => match id, pem with [], [] => false | _, _ => true end | _ => false end =
-    match o' with Some (FPubKey id _ pem) => match id, pem with [], [] => false | _, _ => true end | _ => false end.
+  Lemma pubkey_rel o o' : orel RI o o' -> pubkey_guard o = pubkey_guard o'.
   Proof.
     intro H. destruct (orel_inv o o' H) as [[-> ->]|[[i [-> [-> Hn]]]|[[i [i' [-> [-> Hr]]]]|[[l [l' [-> [-> [_ Hl]]]]]|[[e [e' [-> [-> _]]]]|[v [-> [-> _]]]]]]]];
       reflexivity.
